@@ -105,3 +105,47 @@ Theorem C09_same_chain_same_producers_partial : forall rank n0 gen nd1 nd2,
   mn_main nd1 = mn_main nd2 -> m_cluster nd1 = m_cluster nd2.
 Proof. exact same_chain_same_producers_partial. Qed.
 Print Assumptions C09_same_chain_same_producers_partial.
+
+(** "A block is ACCEPTED only if ...": the acceptance pipeline of the chain service
+    (coq/Dpos/Accept.v mirrors chain/chainhandle.go addBlock / addBlockInternal /
+    chainProcessor / resolveOrphan, chain/orphanpool.go, chain/reorg.go in the order the code
+    performs the checks; tied to the real ChainService by harness/engines/c09chain).  For EVERY
+    sequence of arrivals (any order, duplicates, children before parents, forged twins): a block
+    of the main chain has a verifying signature, was not two or more slots ahead of the clock at
+    one of its arrivals, and its signer owns the slot of its timestamp in the producer set in
+    force after a block that is the genesis block or was itself vetted.  Covered set: the MAIN
+    CHAIN of every reachable state (so also every side branch at the moment the node reorganises
+    to it: the theorem holds in the state after the reorganisation).  Blocks merely stored on a
+    side branch, and parked orphans, satisfy the signature and clock clauses only
+    (C09_stored_blocks_vetted, C09_parked_blocks_vetted): the code runs IsBlockValid when a block
+    is connected to the main chain (executeBlock), not when it is stored. *)
+From Verif Require Import Dpos.Accept Dpos.AcceptProofs.
+Close Scope string_scope.
+
+Theorem C09_accepted_blocks_legitimate : forall iv cluster_of cap genesis evs b,
+  In b (n_main (run iv cluster_of cap genesis evs (init genesis))) -> b <> genesis ->
+  vetted iv evs b /\
+  exists ub, (ub = genesis \/ vetted iv evs ub) /\
+             is_block_valid Z.eqb iv (cluster_of (b_id ub)) (b_signer b) (b_ts b) = true.
+Proof. exact accepted_blocks_legitimate. Qed.
+Print Assumptions C09_accepted_blocks_legitimate.
+
+Theorem C09_accepted_signer_owns_slot : forall iv cluster_of cap genesis evs b,
+  0 < iv -> (forall u, cluster_of u <> [] /\ Z.of_nat (List.length (cluster_of u)) <= index_nil) ->
+  In b (n_main (run iv cluster_of cap genesis evs (init genesis))) -> b <> genesis -> 0 <= b_ts b ->
+  exists ub, (ub = genesis \/ vetted iv evs ub) /\
+    let ids := cluster_of (b_id ub) in
+    nth_error ids (Z.to_nat (Z.rem (next_index iv (ns_to_ms (b_ts b))) (Z.of_nat (List.length ids)))) = Some (b_signer b)
+    /\ In (b_signer b) ids.
+Proof. exact accepted_signer_owns_slot. Qed.
+Print Assumptions C09_accepted_signer_owns_slot.
+
+Theorem C09_stored_blocks_vetted : forall iv cluster_of cap genesis evs b,
+  In b (n_store (run iv cluster_of cap genesis evs (init genesis))) -> b <> genesis -> vetted iv evs b.
+Proof. exact stored_blocks_vetted. Qed.
+Print Assumptions C09_stored_blocks_vetted.
+
+Theorem C09_parked_blocks_vetted : forall iv cluster_of cap genesis evs b,
+  In b (n_orph (run iv cluster_of cap genesis evs (init genesis))) -> vetted iv evs b.
+Proof. exact parked_blocks_vetted. Qed.
+Print Assumptions C09_parked_blocks_vetted.
